@@ -18,6 +18,9 @@ ASSUMPTIONS = ['mirror construction is the textbook image theory of the statemen
 MIR = np.array([1., 1., -1.])
 
 
+RULE = RULE + ' The gain offset is also compared with a power level requested for the field strengths.'
+
+
 def bounds(tier, seed):
     return dict(max_wires=3 if tier == 'quick' else 4, variant=geom.variant(seed), feeds='every pulse + 2 two-source sets')
 
